@@ -81,6 +81,5 @@ package transport
 
 // ---- round 5 ----
 //@ func (*connHandshaker).Wait
-//@   ghost cl = h.closed at if#3
-//@   ensures !cl ==> len(h.doneq) == len(at("if#3", h.doneq)) - 1 && forall(k, 0, len(h.doneq), h.doneq[k] == at("if#3", h.doneq)[k+1])
-//@   ensures !cl ==> result0 == at("if#3", h.doneq)[0].c && result1 == at("if#3", h.doneq)[0].e
+//@   ensures !at("if#3", h.closed) ==> len(h.doneq) == len(at("if#3", h.doneq)) - 1 && forall(k, 0, len(h.doneq), h.doneq[k] == at("if#3", h.doneq)[k+1])
+//@   ensures !at("if#3", h.closed) ==> result0 == at("if#3", h.doneq)[0].c && result1 == at("if#3", h.doneq)[0].e
